@@ -82,14 +82,32 @@ def run_scenario(sc, chooser=None, seed=0, max_steps=4000):
         if k in cbs:
             return cbs[k]
 
-        def cb():
-            sched.yield_point(("cb", k))
-            sched.emit("cb", k)
-            st["ran"][k] = st["ran"].get(k, 0) + 1
-            st["ran_when"].setdefault(k, []).append(bool(ds.raw(sig, "_go")))
-            if k in raises:
-                raise ValueError("callback %d raises" % k)
-        cb._verif_tag = k
+        class CB(object):
+            """a callback object: running it is a visible step; comparing it (remove_then's `j == target`) is a pre-emption
+            point of its own — invisible to the model, where the comparison happens inside the locked enumerate step — so that a
+            remove_then() that edits the list without the lock can be caught in the middle of its scan"""
+            _verif_tag = k
+
+            def __call__(self):
+                sched.yield_point(("cb", k))
+                sched.emit("cb", k)
+                st["ran"][k] = st["ran"].get(k, 0) + 1
+                st["ran_when"].setdefault(k, []).append(bool(ds.raw(sig, "_go")))
+                if k in raises:
+                    raise ValueError("callback %d raises" % k)
+
+            def __eq__(self, other):
+                if sched.me() is not None and not sched.abort:
+                    sched.yield_point(("cmp", k))
+                return self is other
+
+            def __ne__(self, other):
+                return not self.__eq__(other)
+
+            def __hash__(self):
+                return id(self)
+
+        cb = CB()
         cbs[k] = cb
         return cb
 
